@@ -87,6 +87,35 @@ def validname(ctx):
             for (h, body, _) in natural_loops(f):
                 if bb in body and site_node[1] not in body and h in dom.get(site_node[1], ()) and not narrowed:
                     return c
+        # the same loop written as an iterator consumer: `names.iter().try_for_each(|n| validate_name(n).map(..))?`
+        # - the closure validates its element and hands the error on, the consumer's success dominates the site
+        pr = Prov(f)
+        for bb, c in v.calls.items():
+            if c.name.split("::")[-1] != "try_for_each" or len(c.term["args"]) != 2:
+                continue
+            recv = pr.operand(c.term["args"][0])
+            if re.search(r"Iterator::(take|skip|step_by|filter|take_while|skip_while|nth)\(|split_at|split_first|split_last|chunks|Index<I>::index\(", recv):
+                continue
+            a = op_local(c.term["args"][0])
+            if a is None or not (roots and (_arg_roots(f, a) & roots)):
+                continue
+            m = re.match(r"^closure:(.*)$", pr.operand(c.term["args"][1]))
+            cl = None
+            if m:
+                for g in ctx.fx.fns.values():
+                    if g.kind == "closure" and g.path.endswith(m.group(1)) and (getattr(g, "parent", None) == f.path or g.path.startswith(f.path)):
+                        cl = g
+            if cl is None:
+                continue
+            prc = Prov(cl)
+            vcalls = [c2 for c2 in view(ctx, cl).calls.values() if c2.name == validate or c2.name.endswith("::validate_name")]
+            if not vcalls or not all(re.search(r"param:arg2|param:\w+$", prc.operand(c2.term["args"][0])) for c2 in vcalls):
+                continue
+            if "validate_name(" not in prc.local(0):
+                continue            # the closure does not return what validate_name said
+            oks = v.ok_nodes(bb)
+            if oks and site_node not in pg.reach([pg.entry()], set(oks)):
+                return c
         return None
 
     def walk(f, call, arg_idx, chain, validated_below, depth):
